@@ -108,6 +108,9 @@ def oracle(b: Bench) -> str | None:
             f = dict(kv.split("=") for kv in out.split())
             if f["locked"] == "0" and f["waiters"] != "0":
                 return f"free lock with waiting tasks: {out}"
+            if int(f["waiters"]) > len(waitlist):
+                return (f"the queue holds {f['waiters']} entries but only {len(waitlist)} acquire calls are "
+                        f"still waiting: entries of cancelled waiters were left behind")
             if len(holders) == 1 and f["owner"] != str(next(iter(holders))):
                 return f"task {next(iter(holders))} is in its critical section but owner is {f['owner']}"
         elif kind == "cancel":
